@@ -19,6 +19,7 @@ import (
 	"context"
 	"encoding/json"
 	"fmt"
+	"github.com/redis/rueidis/internal/util"
 	"math"
 	"math/rand/v2"
 	"sort"
@@ -198,6 +199,11 @@ type probRun struct {
 // startProb builds the simulation and the clients, and calls build (in a scheduled goroutine) to construct the filters.
 // It returns nil when the run is over already (harness trouble, or the constructor refused the configuration).
 func startProb(p *ProbPlan, out *Outcome, prop string, build func(pr *probRun, cl rueidis.Client) error) *probRun {
+	// one run = one execution that depends on its seed alone: the package's buffer pool is process-wide state (a buffer
+	// one run hands back twice would be met by later runs of the same process), so every run gets a pool of its own
+	bytesPool = util.NewPool(func(capacity int) *bytesContainer {
+		return &bytesContainer{s: make([]byte, 0, capacity)}
+	})
 	e := newSimEnv(out.Seed, p.Sim, out)
 	s := e.sim
 	pr := &probRun{p: p, e: e, out: out, prop: prop}
